@@ -547,7 +547,17 @@ class CodeGenerator:
         initial_value = self.gen_expr_code(code.start, rvalue=True)
         final_value = self.gen_expr_code(code.final, rvalue=True)
 
-        self.emit(ir.Jump(main_block))
+        # The statement is not executed at all when the initial value
+        # lies beyond the final value:
+        self.emit(
+            ir.CJump(
+                initial_value,
+                "<=" if code.direction else ">=",
+                final_value,
+                main_block,
+                final_block,
+            )
+        )
         self.builder.set_block(main_block)
 
         loop_var = self.emit(ir.Phi("loop_var", ty))
